@@ -89,7 +89,26 @@ impl X<'_> {
         } else {
           let t = self.t(&**e);
           // the renderer parenthesises object literals
-          format!("=>{}", t.strip_prefix('(').and_then(|x| x.strip_suffix(')')).filter(|x| x.starts_with('{')).map(|x| x.to_string()).unwrap_or(t))
+          // … and what begins with one behind parentheses: `(({} as never) as T)`; one enclosing pair is
+          // dropped when it encloses the whole expression
+          let encloses_all = |x: &str| {
+            let mut depth = 0i32;
+            for (i, c) in x.char_indices() {
+              match c {
+                '(' => depth += 1,
+                ')' => {
+                  depth -= 1;
+                  if depth == 0 && i + 1 != x.len() {
+                    return false;
+                  }
+                }
+                _ => {}
+              }
+            }
+            x.starts_with('(') && x.ends_with(')')
+          };
+          let inner = if encloses_all(&t) && t[1..].trim_start_matches('(').starts_with('{') { t[1..t.len() - 1].to_string() } else { t };
+          format!("=>{}", inner)
         }
       }
     };
